@@ -298,12 +298,16 @@ def _validate(spec, want):
             raise HarnessError("bad user-class case")
         seen_l = False
         for lv in h["levels"]:
-            if not isinstance(lv, dict) or lv.get("kind") not in ("D", "L") \
+            if not isinstance(lv, dict) or lv.get("kind") not in ("D", "L", "B") \
                     or not isinstance(lv.get("fields"), list):
                 raise HarnessError("bad hierarchy level")
             if lv["kind"] == "D" and seen_l:
                 raise HarnessError("decorated below legacy is not a supported shape")
-            seen_l = seen_l or lv["kind"] == "L"
+            seen_l = seen_l or lv["kind"] in ("L", "B")
+            if lv["kind"] == "B" and (lv["fields"] or (
+                    h["root"] == "Expression" and not any(
+                        q.get("kind") == "D" for q in h["levels"][:h["levels"].index(lv)]))):
+                raise HarnessError("behaviour-only level needs a decorated ancestor, no fields")
     if kind == "numeric":
         if spec.get("nest") in ("dictkey", "set"):
             raise HarnessError("number types are not used as keys here")
@@ -688,10 +692,14 @@ def user_object(draw):
     depth = draw(st.integers(1, 3))
     levels, used = [], set()
     for _ in range(depth):
-        kind = draw(st.sampled_from(("D", "D", "L")))
-        if levels and levels[-1]["kind"] == "L":
-            kind = "L"
-        flds = [f for f in draw(st.permutations(FIELD_POOL)) if f not in used][
+        kind = draw(st.sampled_from(("D", "D", "L", "B")))
+        if levels and levels[-1]["kind"] in ("L", "B"):
+            kind = draw(st.sampled_from(("L", "B")))
+        if kind == "B" and root == "Expression" and not any(
+                lv["kind"] == "D" for lv in levels):
+            kind = "L" if levels else "D"
+        flds = [] if kind == "B" else [
+            f for f in draw(st.permutations(FIELD_POOL)) if f not in used][
             :draw(st.integers(0, 2))]
         used.update(flds)
         mm = ROOT_METHOD[root] if kind == "D" and draw(st.booleans()) else None
@@ -728,8 +736,19 @@ C_VALUES = {"x": (-2, 1, 3), "y": (-3, 2, 7), "z": (0, 5), "k": (0, 2), "m": (1,
 def compiled_object(draw):
     ex = draw(S.expr(draw(st.sampled_from(("INT", "NUM", "NUM"))),
                      draw(st.integers(1, 3)), FRAG_C))
+    if draw(st.integers(0, 2)) == 0:
+        # unlisted names that tie under a case-insensitive or "natural" ordering, used
+        # asymmetrically: their order must not depend on set iteration (hash seed)
+        trio = draw(st.sampled_from((("alpha", "Alpha", "ALPHA"), ("v", "V", "v_"),
+                                     ("x2", "x10", "X2"), ("n", "N", "nn"))))
+        ex = ["Sum", [ex, ["Product", [["Const", "int", 100], ["Var", trio[0]]]],
+                      ["Product", [["Const", "int", 10], ["Var", trio[1]]]],
+                      ["Var", trio[2]]]]
     names = sorted(X.var_names(ex))
     pool = names + [n for n in ("aa", "zz") if draw(st.integers(0, 4)) == 0]
+    if draw(st.booleans()):
+        pool = [n for n in pool if n not in (
+            "alpha", "Alpha", "ALPHA", "v", "V", "v_", "x2", "x10", "X2", "n", "N", "nn")]
     listed = draw(st.permutations(pool))[:draw(st.integers(0, len(pool)))] if pool else []
     listed = [[draw(st.sampled_from(("name", "var"))), n] for n in listed]
     envs = []
